@@ -182,12 +182,14 @@ func (d *Decoder) decodeValue(f field, t reflect.Type, ff reflect.Value) (n int,
 
 		n = 8
 
-		if l%8 != 0 {
-			l += 8 - l%8
+		// pad in 64 bits: in uint32 a declared length above 2^32-8 would wrap to zero
+		ll := int64(l)
+		if ll%8 != 0 {
+			ll += 8 - ll%8
 		}
 
-		_, err = io.CopyN(ioutil.Discard, d.r, int64(l))
-		n += int(l)
+		_, err = io.CopyN(ioutil.Discard, d.r, ll)
+		n += int(ll)
 
 		return
 	}
